@@ -1,4 +1,5 @@
 import LeptosModel.Model.Reactive
+import LeptosModel.Proofs.ReactiveBasic
 /-!
 # C01 — derived values equal a from-scratch recomputation
 
@@ -23,9 +24,10 @@ def C01_read_eq_scratch_stmt : Prop :=
     (step p (run p ops) (.read m)).2 = some (specVal p (run p ops) m)
 
 /-- the from-scratch value does not depend on the fuel once it exceeds the node id -/
-def C01_scratch_fuel_irrelevant_stmt : Prop :=
+theorem C01_scratch_fuel_irrelevant :
   ∀ (p : Prog) (env : Nat → Int) (f g id : Nat), WF p = true → id < f → id < g →
-    scratch p env f id = scratch p env g id
+    scratch p env f id = scratch p env g id :=
+  fun _ env f g id hwf hf hg => scratch_fuel env hwf f g id hf hg
 
 /-! ## sanity: a diamond with an equality cut-off and a conditional read, three writes -/
 
